@@ -89,6 +89,11 @@ def run_fmt(case, ctx, fmt, names):
                 par = f"theta_{pr.randint(0, 4)}"
         out.append((nm, tg, ct, par))
     gates = out
+    if pr.random() < 0.3 and gates:
+        # sparse / multi-digit qubit labels (text formats print and parse the index)
+        labels = sorted(pr.sample(list(range(6)) + [9, 10, 11, 12, 19, 20, 21, 99, 100, 101], n))
+        gates = [(nm, [labels[q] for q in tg], None if ct is None else [labels[q] for q in ct], par) for nm, tg, ct, par in gates]
+        ctx.tab("qubit_labels", "sparse_multi_digit")
     fixed = pr.random() < 0.5
     width_extra = pr.randint(0, 2) if fixed else 0
     w = (gen.width_of(gates) + width_extra) if fixed else None
@@ -182,10 +187,23 @@ def run_repr(case, ctx):
     for gg in (Gate("MEASURE", pr.randint(0, 3)), Gate("CMEASURE", 2, parameter=inner), Gate("CMEASURE", 0, parameter={"0": [], "1": [Gate("RZ", 1, parameter=0.25)]})):
         try:
             back = eval(repr(gg))
-            ok = repr(back) == repr(gg) and back.name == gg.name and back.target == gg.target
+            ok = repr(back) == repr(gg) and back.name == gg.name and back.target == gg.target and back.parameter == gg.parameter
         except Exception as e:  # noqa
             ok, back = False, repr(e)
         ctx.check("repr_eval", ok, "eval(repr(gate)) fails for a measurement gate", lambda: {"gate": repr(gg), "back": repr(back)})
+    # "all gates": names outside the built-in set (user-defined / backend-specific gates) and measurement gates carrying a parameter
+    for _ in range(6):
+        nm = pr.choice(["POTATO", "CPOTATO", "MEASURE", "U3LIKE", "CU", "SQRTX"])
+        q = pr.sample(range(6), 3)
+        par = pr.choice([0.75, "alpha", -2, 1e-7, "Z", (0.1, 0.2)])
+        gg = Gate(nm, q[:pr.randint(1, 2)], control=(q[2:] if nm.startswith("C") else None), parameter=par, is_variational=pr.random() < 0.3)
+        try:
+            back = eval(repr(gg))
+            ok = back.name == gg.name and back.target == gg.target and back.control == gg.control and back.parameter == gg.parameter \
+                and back.is_variational == gg.is_variational
+        except Exception as e:  # noqa
+            ok, back = False, repr(e)
+        ctx.check("repr_eval", ok, "eval(repr(gate)) does not recreate a gate outside the built-in name set", lambda: {"gate": repr(gg), "fields": [gg.name, gg.target, gg.control, gg.parameter], "back": repr(back)})
 
 
 def run_operator(case, ctx):
